@@ -27,6 +27,8 @@ type RuleSetCfg struct {
 	Marks      bool // counted probe statements in actions
 	// DistinctSalience draws pairwise distinct saliences (differential checks need a deterministic run).
 	DistinctSalience bool
+	// NoObjectReplace switches off the action that replaces a nested object as a whole.
+	NoObjectReplace bool
 	// NoTopWrites excludes assignments to top-level variables.
 	NoTopWrites bool
 	// OnlyForms restricts hot locations to the given addressing forms (nil = all).
@@ -44,6 +46,9 @@ type RuleSet struct {
 	Rules []*gast.Rule
 	Hot   []PathInfo
 	Feat  map[string]int
+	// objBase gives every replaceable object its own range of constructor arguments, so that no two
+	// destinations ever receive the same (remembered) constructor call
+	objBase map[string]int
 }
 
 var salPool = []int64{0, 1, -1, 2, 5, 10, -10, 100, 2147483647, -2147483648, 7, 3}
@@ -296,6 +301,18 @@ func genAction(t *rapid.T, c RuleSetCfg, rs *RuleSet, xg *XG, names []string, se
 	if c.Marks {
 		alts = append(alts, alt{"mark", 2})
 	}
+	// an object that hot locations live in is replaced as a whole (F.Sub = F.Mk(3)): every remembered
+	// expression over its members has to be forgotten
+	var objHot []PathInfo
+	for _, h := range rs.Hot {
+		switch h.Form {
+		case "nestedptr", "sliceofptr", "mapofptr", "nestedslice":
+			objHot = append(objHot, h)
+		}
+	}
+	if len(objHot) > 0 && !c.NoObjectReplace {
+		alts = append(alts, alt{"replace", 2})
+	}
 	total := 0
 	for _, a := range alts {
 		total += a.w
@@ -310,6 +327,26 @@ func genAction(t *rapid.T, c RuleSetCfg, rs *RuleSet, xg *XG, names []string, se
 		k -= a.w
 	}
 	switch name {
+	case "replace":
+		h := objHot[rapid.IntRange(0, len(objHot)-1).Draw(t, "replace_obj")]
+		full := h.Mk()
+		drop := 1
+		if h.Form == "nestedslice" {
+			drop = 2
+		}
+		obj := &gast.Path{Root: full.Root, Steps: append([]gast.Step{}, full.Steps[:len(full.Steps)-drop]...)}
+		rs.Feat["object_replaced_as_a_whole:"+h.Form]++
+		if rs.objBase == nil {
+			rs.objBase = map[string]int{}
+		}
+		dst := gast.ExprString(obj)
+		if _, ok := rs.objBase[dst]; !ok {
+			rs.objBase[dst] = 10 * (len(rs.objBase) + 1)
+		}
+		// the constructor call is remembered like any other call: it is announced with Forget, so that
+		// every execution of the statement makes a new object (and no two places share one)
+		call := &gast.Call{Recv: gast.P("F"), Name: "Mk", Args: []gast.Expr{gast.I(int64(rs.objBase[dst] + rapid.IntRange(0, 3).Draw(t, "replace_with")))}}
+		return []gast.Stmt{&gast.Assign{LHS: obj, Op: "=", RHS: &gast.Frozen{X: call}}, forgetCall(t, gast.CompactText(call))}
 	case "retract":
 		var target string
 		switch rapid.IntRange(0, 5).Draw(t, "retract_kind") {
